@@ -69,7 +69,7 @@ func checkC17(p *load.Program, r *kit.Report) {
 				}
 				reach := kit.Reach(ph, []kit.Pt{kit.EdgeStart(gd.PassEdge())}, kit.Opts{})
 				for _, ret := range kit.Returns(ph) {
-					if reach.Has(ret) && errCause(kit.RetOperand(ret, 0)) != "ErrHeaderMarkedInvalid" {
+					if reach.Has(ret) && errCauseVia(reach, ret, 0) != "ErrHeaderMarkedInvalid" {
 						bad = "a marked header reaches " + retLabel(ret)
 					}
 				}
@@ -151,7 +151,7 @@ func checkC17(p *load.Program, r *kit.Report) {
 					reach := kit.Reach(f, []kit.Pt{kit.Entry(f)}, kit.Opts{StopAt: kit.InstrSet(c)})
 					ok = true
 					for _, ret := range kit.Returns(f) {
-						if reach.Has(ret) && kit.ReturnErrClass(ret) != kit.ErrNonNil {
+						if reach.Has(ret) && reach.ErrClass(ret) != kit.ErrNonNil {
 							ok = false
 						}
 					}
@@ -184,7 +184,7 @@ func checkSaveAfterChange(p *load.Program, r *kit.Report, f *ssa.Function, inval
 		reach := kit.Reach(f, kit.After(w.Instr), kit.Opts{StopAt: kit.InstrSet(saves...)})
 		bad := ""
 		for _, ret := range kit.Returns(f) {
-			if reach.Has(ret) && kit.ReturnErrClass(ret) != kit.ErrNonNil {
+			if reach.Has(ret) && reach.ErrClass(ret) != kit.ErrNonNil {
 				bad = "the changed invalid list is not saved before " + retLabel(ret) + " at " + posOf(p, ret)
 			}
 		}
@@ -202,7 +202,9 @@ func checkSaveInvalidWrites(p *load.Program, r *kit.Report) {
 		return
 	}
 	var writes []ssa.Instruction
-	for _, c := range kit.Calls(f, func(id string) bool { return id == load.StoragePkg+".Storage.Write" || id == load.StoragePkg+".ReadWriter.Write" || id == load.StoragePkg+".Writer.Write" }) {
+	for _, c := range kit.Calls(f, func(id string) bool {
+		return id == load.StoragePkg+".Storage.Write" || id == load.StoragePkg+".ReadWriter.Write" || id == load.StoragePkg+".Writer.Write"
+	}) {
 		writes = append(writes, c)
 	}
 	if len(writes) == 0 {
@@ -216,7 +218,7 @@ func checkSaveInvalidWrites(p *load.Program, r *kit.Report) {
 	reach := kit.Reach(f, []kit.Pt{kit.Entry(f)}, kit.Opts{StopAt: kit.InstrSet(writes...)})
 	bad := ""
 	for _, ret := range kit.Returns(f) {
-		if reach.Has(ret) && kit.ReturnErrClass(ret) != kit.ErrNonNil {
+		if reach.Has(ret) && reach.ErrClass(ret) != kit.ErrNonNil {
 			bad = "saveInvalidHashes can return nil without writing (e.g. for an empty list): an emptied list would not replace the stored one"
 		}
 	}
